@@ -122,7 +122,8 @@ func (node *UniqueIDNode) Checksum() string {
 }
 
 // Equals returns true if both nodes have the same UUID value. The checksum (if
-// any) is ignored.
+// any) is ignored. If either value is not a valid UUID the nodes are equal only
+// when their values are identical.
 //
 // If either nodes are nil (or both) the result will always be false.
 func (node *UniqueIDNode) Equals(node2 Node) bool {
@@ -139,7 +140,9 @@ func (node *UniqueIDNode) Equals(node2 Node) bool {
 		u2, err2 := n2.UUID()
 
 		if err1 != nil || err2 != nil {
-			return false
+			// Identifiers that are not valid UUIDs can only be compared by
+			// their raw value.
+			return node.Value() == n2.Value()
 		}
 
 		return u1.Equals(u2)
